@@ -100,15 +100,22 @@ REACH = ["taxonmodel:TaxonNamespace.add_taxon", "taxonmodel:TaxonNamespace.remov
          "taxonmodel:TaxonNamespace.__delitem__", "taxonmodel:TaxonNamespace.__copy__",
          "taxonmodel:TaxonNamespace.__deepcopy__", "taxonmodel:TaxonNamespace.label_taxon_map",
          "container:CaseInsensitiveDict.__setitem__"]
-MIN_EVENTS = {"op-applied": (20000, 400000), "state-compared": (20000, 400000),
-              "bits-checked": (30000, 600000), "roundtrip-checked": (20000, 300000),
-              "render-newick-checked": (20000, 300000), "render-bitstring-checked": (20000, 300000),
-              "lookup-checked": (100000, 2000000), "require-checked": (2000, 40000),
-              "immutable-op-checked": (100, 2000), "copy-checked": (500, 10000),
-              "hook:TaxonNamespace.taxon_bitmask:return": (30000, 600000),
-              "hook:TaxonNamespace.sort:return": (500, 10000),
-              "hook:TaxonNamespace.remove_taxon:return": (500, 10000),
-              "hook:TaxonNamespace.bitmask_as_newick_string:return": (10000, 150000)}
+MIN_EVENTS = {"op-applied": (100000, 2500000), "state-compared": (100000, 3000000),
+              "bits-checked": (150000, 5000000), "roundtrip-checked": (500000, 10000000),
+              "render-newick-checked": (250000, 5000000), "render-bitstring-checked": (150000, 3000000),
+              "lookup-checked": (3000000, 50000000), "require-checked": (200000, 5000000),
+              "immutable-op-checked": (1000, 30000), "copy-checked": (4000, 150000),
+              "history-run": (50000, 800000),
+              "hook:TaxonNamespace.taxon_bitmask:return": (150000, 5000000),
+              "hook:TaxonNamespace.sort:return": (15000, 300000),
+              "hook:TaxonNamespace.remove_taxon:return": (8000, 200000),
+              "hook:TaxonNamespace.require_taxon:return": (200000, 5000000),
+              "hook:TaxonNamespace.findall:return": (500000, 10000000),
+              "hook:TaxonNamespace.bitmask_taxa_list:return": (150000, 3000000),
+              "hook:TaxonNamespace.bitmask_as_newick_string:return": (150000, 3000000),
+              "hook:nexusprocessing.bitmask_as_newick_string:return": (250000, 5000000),
+              "hook:TaxonNamespace.__deepcopy__:return": (1000, 50000),
+              "hook:TaxonNamespace.__copy__:return": (3000, 50000)}
 ASSUMPTIONS = ["membership of a namespace is what iterating it yields; Taxon identity is object identity",
                "case-insensitive matching is judged only where str.lower, str.upper and str.casefold agree",
                "renderings are read back with standard Newick token rules (quotes, '' escape, unquoted _ == blank)",
@@ -689,11 +696,11 @@ class Run(object):
     def compare(self, ns, m, role, full, after_raise):
         ctx = self.ctx
         op = self.last_op + ("-raised" if after_raise else "")
-        if self.lazy_history:
-            # bits are read only now and then: a change cannot be attributed to the last operation
-            op = "some-earlier-operation(lazy-history)"
-        elif role != "current":
+        if role != "current":
             op = "%s-on-other-namespace" % op
+        # lazy histories read bits only now and then: a bit change cannot be attributed to the last operation
+        # (membership is compared after every operation in both modes and keeps the operation's name)
+        bits_op = "some-earlier-operation(lazy-history)" if self.lazy_history else op
         ctx.ev("state-compared")
         # ---- members --------------------------------------------------------------
         real_taxa = list(ns)
@@ -720,7 +727,7 @@ class Run(object):
             # lazy histories read bits only now and then (reading fills the cache)
             self.check_lookups(ns, m, light=not full)
             return
-        union = self.check_bits(ns, m, op, want_labels)
+        union = self.check_bits(ns, m, bits_op, want_labels)
         if not full:
             return
         self.check_subsets(ns, m, union)
@@ -758,7 +765,7 @@ class Run(object):
             union |= b
         allm = ns.all_taxa_bitmask()
         if not isinstance(allm, int) or (allm & union) != union:
-            ctx.violation("bits|all_taxa_bitmask-does-not-cover-members|after-%s" % op,
+            ctx.violation("bits|all_taxa_bitmask-does-not-cover-members",
                           "all_taxa_bitmask()=%s, OR of member bits=%s" % (bin(allm), bin(union)), self.detail())
         elif not m.ever_removed and allm != union:
             # nothing ever left this namespace: "bitmask spanning all Taxon objects in self" is exactly the members
